@@ -3,7 +3,7 @@
 From VBase Require Import MachInt.
 From VGen Require Import F64.
 From VBase Require Import ZpOps.
-From VProofs Require Import F64Red F64Ops F64Exp F64Consts.
+From VProofs Require Import F64Red F64Ops F64Exp F64Consts F64Inv NumTheoryPrime.
 Open Scope Z_scope.
 
 (* f64: Montgomery reduction, generated from math/src/field/f64/mod.rs *)
@@ -91,3 +91,18 @@ Theorem C07_f64_root_of_unity : val f64_TWO_ADIC_ROOT_OF_UNITY = 727720307684972
   zpow_mod M 7277203076849721926 (2^32) = 1 /\ zpow_mod M 7277203076849721926 (2^31) = M - 1.
 Proof. exact (conj (proj1 f64_root_def) f64_root_order). Qed.
 Print Assumptions C07_f64_root_of_unity.
+
+(* the three moduli are prime (Lucas/Pocklington certificates checked by vm_compute; Proofs/NumTheoryPrime.v) *)
+Theorem C07_moduli_prime : Znumtheory.prime P64 /\ Znumtheory.prime P62 /\ Znumtheory.prime P128.
+Proof. exact (conj P64_prime (conj P62_prime P128_prime)). Qed.
+Print Assumptions C07_moduli_prime.
+
+Theorem C07_f64_inv : forall a, repr a -> val a <> 0 ->
+  repr (f64_inv a) /\ (val (f64_inv a) * val a) mod M = 1.
+Proof. exact f64_inv_spec. Qed.
+Print Assumptions C07_f64_inv.
+
+Theorem C07_f64_div_mul : forall a b, repr a -> repr b -> val b <> 0 ->
+  (val (f64_div a b) * val b) mod M = val a.
+Proof. exact f64_div_mul. Qed.
+Print Assumptions C07_f64_div_mul.
